@@ -751,10 +751,21 @@ class Saver:
 
                 for chunk in chunks:
                     new_f = self.save(chunk=chunk, chunk_i=chunk_i, executor=executor)
-                    pending = [f for f in pending if not f.done()]
                     if new_f is not None:
                         pending += [new_f]
+                    pending = self._drop_finished(pending)
                     chunk_i += 1
+
+            # The source is exhausted, but the data is complete only once every
+            # pending chunk write has succeeded. Check this inside the try block:
+            # a failed write is then recorded in the metadata and re-raised.
+            if pending:
+                done, not_done = wait(pending, timeout=self.timeout)
+                if len(not_done):
+                    raise RuntimeError(
+                        f"{len(not_done)} futures of {self.md} did not complete in time!"
+                    )
+                pending = self._drop_finished(pending)
 
         except strax.MailboxKilled:
             # Write exception (with close), but exit gracefully.
@@ -772,6 +783,22 @@ class Saver:
         finally:
             if not self.closed:
                 self.close(wait_for=pending)
+
+    @staticmethod
+    def _drop_finished(pending):
+        """Return the futures in pending that are still running.
+
+        A finished future is only dropped after looking at its outcome: .result() re-raises an
+        exception that occurred in the chunk write.
+
+        """
+        still_pending = []
+        for f in pending:
+            if f.done():
+                f.result()
+            else:
+                still_pending.append(f)
+        return still_pending
 
     def save(self, chunk: strax.Chunk, chunk_i: int, executor=None):
         """Save a chunk, returning future to wait on or None."""
